@@ -171,6 +171,11 @@ func scanWorker(ctx context.Context, jobs <-chan scanJob, results chan<- reporte
 			checkDuration.WithLabelValues(job.check.Reporter()).Observe(time.Since(start).Seconds())
 			verifJitter(job)
 			for _, problem := range problems {
+				if problem.Lines.Last < problem.Lines.First {
+					// Line breaks YAML recognises and we don't (a lone CR) shift positions
+					// of keys and values apart, never report a range that ends before it starts.
+					problem.Lines.Last = problem.Lines.First
+				}
 				results <- reporter.Report{
 					Path:          job.entry.Path,
 					ModifiedLines: job.entry.ModifiedLines,
